@@ -87,6 +87,7 @@ CONSTANTS
   MWarmupRule,               \* window rule applied during warm-up
   MGlobalStepCount,          \* warm-up counted over the whole run (no second warm-up after the stage restart)
   MResetTentative,           \* tentative step reset to dt_init at the stage restart
+  MErrOnIncrement,           \* convergence measured on the increment Anew - A (previous iterate) instead of on the returned iterate
   MEntryPerIteration         \* one window entry per call of adaptive_euler_step (per screening iteration) instead of per solve step
 
 FT == 24
@@ -232,7 +233,7 @@ Answer(d) == AnswerCtl /\ AnswerNum(d)
 
 (* Induced: kernel evaluation an, then
      dA = an - A;  v' = (1 - beta) v + alpha dA;  A' = A + v';
-     error = max_i |dA_i| / max(|A'_i|, 1e-20)                                   *)
+     error = max_i |an_i - A'_i| / max(|A'_i|, 1e-20)                                   *)
 PolyakV(an) == [i \in 1..2 |-> ExactDiv((4 - BetaQ) * vel[i], 4) + ExactDiv(an[i] - Aind[i], AlphaDen)]
 ErrSmall(dA, a2) == \A i \in 1..2 : IF a2[i] = 0 THEN dA[i] = 0
                                     ELSE Abs(dA[i]) <= (Abs(a2[i]) - 1) \div TolDen     \* |dA| * 2^tolexp < |A'|
@@ -245,9 +246,14 @@ InducedNum(an) == LET v2 == PolyakV(an) IN
                   /\ UNCHANGED <<dt, adt, tent, dpsi, dstep, nent, delta, linkA>>
 NewIterate(an) == LET v2 == PolyakV(an) IN VAdd(Aind, <<v2[1], v2[2]>>)
 \* with a given kernel output (trace validation) ...
-InducedWith(an) == InducedCtl(ErrSmall(VSub(an, Aind), NewIterate(an))) /\ InducedNum(an)
+\* the error is the relative mismatch between the kernel output and the iterate that is RETURNED (A' = A + v'), so an
+\* accepted step is self-consistent to the tolerance.  (Before /repo 2699d13 it was measured on the increment
+\* Anew - A: the test then also passed when the iterate crossed the fixed point with momentum, and A + v' was returned
+\* far from the kernel output; kept as the seeded switch MErrOnIncrement.)
+Mismatch(an) == IF MErrOnIncrement THEN VSub(an, Aind) ELSE VSub(an, NewIterate(an))
+InducedWith(an) == InducedCtl(ErrSmall(Mismatch(an), NewIterate(an))) /\ InducedNum(an)
 \* ... and with the environment's choice: current iterate + kick
-Induced(k) == /\ InducedCtl(ErrSmall(KickTable[k], NewIterate(VAdd(Aind, KickTable[k]))))
+Induced(k) == /\ InducedCtl(ErrSmall(Mismatch(VAdd(Aind, KickTable[k])), NewIterate(VAdd(Aind, KickTable[k]))))
               /\ InducedNum(VAdd(Aind, KickTable[k]))
 
 (* Finish: window rule (solver.py: `if step > window: new_dt = dt_init / max(1e-10, mean(vals[-window:]));
@@ -336,9 +342,11 @@ ConvergedStops == [][(pc = "test" /\ conv) => pc' = "finish"]_vars
 PolyakUpdate == [][(pc = "induced" /\ pc' = "test") =>
                      \A i \in 1..2 : /\ 4 * AlphaDen * vel'[i] = (4 - BetaQ) * AlphaDen * vel[i] + 4 * (knew'[i] - Aind[i])
                                      /\ Aind'[i] = Aind[i] + vel'[i]]_vars
-\* the exit test is the relative mismatch between the previous iterate and the kernel output, measured against the new iterate
+\* the exit test is the relative mismatch between the kernel output and the new (returned) iterate
 ErrorIsRelativeMismatch == [][(pc = "induced" /\ pc' = "test") =>
-                                (conv' <=> ErrSmall(VSub(knew', Aind), Aind'))]_vars
+                                (conv' <=> ErrSmall(VSub(knew', Aind'), Aind'))]_vars
+\* hence what an accepted step returns reproduces the kernel output to the tolerance
+AcceptedIterateIsSelfConsistent == (pc = "finish" /\ Screening /\ kcalls > 0) => ErrSmall(VSub(knew, Aind), Aind)
 NoScreeningNoInduced == ~Screening => (kcalls = 0 /\ Aind = Zero /\ vel = Zero)
 LinksFollowIterate == (pc = "euler" /\ Screening) => linkA = Aind
 VelocityRestartsEachStep == [][(pc = "begin" /\ pc' = "test") => vel' = Zero]_vars
